@@ -123,4 +123,38 @@ example :
       = [(.secure, true), (.bogus, true), (.bogus, false)] := by
   decide
 
+/-- the hypotheses of `cache_sound_partial` are satisfiable by a non-trivial history (second request
+served from the cache), and the theorem then applies -/
+example :
+    AllSecure (fun r _ => SecureOK acceptAll r) [reqA 5 1000 0, reqA 5 1003 3]
+      (runHistory acceptAll {} [] [reqA 5 1000 0, reqA 5 1003 3]) := by
+  apply cache_sound_partial
+  · intro r hr
+    simp only [List.mem_cons, List.mem_nil_iff, or_false] at hr
+    rcases hr with rfl | rfl <;> (unfold Bounds SerialLe M HALF; decide)
+  · intro r hr t ht _
+    simp only [List.mem_cons, List.mem_nil_iff, or_false] at hr
+    rcases hr with rfl | rfl
+    all_goals
+      simp only [firstTtl, reqA, recA, List.head?_cons, Option.map_some, Option.some.injEq] at ht
+      subst ht
+      decide
+  · simp only [List.pairwise_cons, List.mem_cons, or_false, forall_eq,
+      List.not_mem_nil, false_imp_iff, implies_true, List.Pairwise.nil, and_true]
+    intro _
+    exact ⟨⟨rfl, rfl, rfl, rfl⟩, by decide, by decide, by decide⟩
+
+/-- likewise for `cache_sound` (repaired cache): only `Bounds` and `KeyFaithful` are needed, whatever
+the clocks do (here the wall clock jumps past the expiration while the monotonic clock stands still) -/
+example :
+    AllSecure (fun r v => SecureOK acceptAll r ∧ TtlOK r v) [reqA 3600 1000 0, reqA 3600 1005 0, reqA 3600 1020 0]
+      (runHistoryFixed acceptAll {} [] [reqA 3600 1000 0, reqA 3600 1005 0, reqA 3600 1020 0]) := by
+  apply cache_sound
+  · intro r hr
+    simp only [List.mem_cons, List.mem_nil_iff, or_false] at hr
+    rcases hr with rfl | rfl | rfl <;> (unfold Bounds SerialLe M HALF; decide)
+  · simp only [List.pairwise_cons, List.mem_cons, or_false, forall_eq_or_imp, forall_eq,
+      List.not_mem_nil, false_imp_iff, implies_true, List.Pairwise.nil, and_true]
+    refine ⟨⟨?_, ?_⟩, ?_⟩ <;> (intro _; exact ⟨rfl, rfl, rfl, rfl⟩)
+
 end HickoryVerif.C06
